@@ -26,8 +26,8 @@ RULE_RIGHT_REPEAT = 0
 #     0 = the repair in pending_fixes/C08-rstrip-end-counts-cells.diff is applied.
 RSTRIP_COUNTS_CHARS = 1
 # 1 = Columns(width=w) computes max_width // (w + padding) columns, possibly 0, and raises ZeroDivisionError (F11);
-#     0 = the repair in pending_fixes/C14-columns-width-at-least-one-column.diff (`max(1, …)`) is applied.
-COLUMNS_ZERO_COUNT = 1
+#     0 = the repair `max(1, max_width // max(1, w + padding))` (pending_fixes/C08-columns-width-plus-padding-zero.ALTERNATIVE-to-C14.diff) is applied.
+COLUMNS_ZERO_COUNT = 0
 VARIANT = ZERO_WIDTH_CHILD + 2 * RULE_RIGHT_REPEAT + 4 * RSTRIP_COUNTS_CHARS + 8 * COLUMNS_ZERO_COUNT
 
 GUIDE_CHARS = set(" |+-`│├─└┃┣━┗║╠═╚")
@@ -475,11 +475,9 @@ def run_columns(ctx, env, rng, n_cases):
                 ans = "err:" + type(ex).__name__
                 d = unpack(pad)
                 finding = None
-                if isinstance(ex, ZeroDivisionError) and width is not None:
-                    if width + max(d[1], d[3]) == 0:
-                        finding = "columns-width-plus-padding-zero"  # `max_width // 0` itself
-                    elif mw // (width + max(d[1], d[3])) == 0:
-                        finding = "columns-width-zero-division"  # F11: zero columns, then `item_count % 0`
+                # F11: `max_width // (width + padding)` is 0 columns (then `item_count % 0`) or divides by zero itself
+                if isinstance(ex, ZeroDivisionError) and width is not None and (width + max(d[1], d[3]) == 0 or mw // (width + max(d[1], d[3])) == 0):
+                    finding = "columns-width-zero-division"
                 ctx.check(False, "Columns", inp, f"{type(ex).__name__} escapes from rendering", finding=finding)
             else:
                 if not out:
